@@ -1,4 +1,295 @@
+/-
+C11 — Scale and Impute apply exactly the statistics of their fitting window.
+Property theorems only (helper lemmas live in `Lemmas/C11.lean`; the model and the specification
+predicates `ScaleCellSpec`, `ShiftStat`, `ScaleStat`, `ImpStat`, `IsMin`, `IsMedian`, `IsQuantile`,
+`IsMode`, `Imputable`, `StatsDefined` in `Model/C11.lean`).
+
+Reading of the statement.  A feature is a column: index `k` of dense contexts, key `k` of sparse
+contexts (an absent key counts as the number 0 in statistics and is never materialised), the context
+itself for scalar contexts.  Its fitting window is the column restricted to the first `using`
+interactions (`window`).  `ScaleCellSpec sd cfg w v out` says: a number `x` becomes
+`(x+shift)*scale` with the documented statistics of the non-missing window values `nums w`
+(`None`, `nan` and strings take no part); anything else is unchanged.  `sd` stands for
+`statistics.stdev` (needs a square root): every theorem holds for every `sd`.
+-/
 import CobaVerif.Lemmas.C11
+
 namespace Coba.C11
-theorem placeholder : window (α := Nat) none [] = [] := rfl
+
+/-! ## the statistics are the documented ones -/
+
+/-- `min`/`max` of the window really are its least / greatest element -/
+theorem min_max_spec (xs : List Rat) (m : Rat) :
+    (minL xs = some m → IsMin xs m) ∧ (maxL xs = some m → IsMax xs m) := ⟨minL_isMin, maxL_isMax⟩
+
+/-- `median` is the middle element of the sorted data or the mean of the two middle ones -/
+theorem median_spec (xs : List Rat) (m : Rat) (h : median xs = some m) : IsMedian xs m := median_isMedian h
+
+/-- coba.statistics.percentile (unweighted) is linear interpolation between closest ranks: for sorted-by-the-code
+data of at least two values and `0 ≤ p ≤ 1` it never fails and returns the `p`-quantile -/
+theorem percentile_spec (xs : List Rat) (p : Rat) (hn : 2 ≤ xs.length) (hp0 : 0 ≤ p) (hp1 : p ≤ 1) :
+    ∃ q, percentile (isort xs) p = some q ∧ IsQuantile xs p q := percentile_isQuantile xs p hn hp0 hp1
+
+/-- coba.statistics.iqr never fails; it is 0 for fewer than two values and `Q3 − Q1` otherwise -/
+theorem iqr_spec (xs : List Rat) :
+    ∃ d, iqr xs = some d ∧
+      ((xs.length ≤ 1 ∧ d = 0) ∨
+       (2 ≤ xs.length ∧ ∃ a b, IsQuantile xs (1/4) a ∧ IsQuantile xs (3/4) b ∧ d = b - a)) :=
+  let ⟨d, hd⟩ := iqr_isSome xs; ⟨d, hd, iqr_sound hd⟩
+
+/-- `_get_shift_and_scale`: whenever parameters are produced they are the documented statistics of the
+non-missing window values — for every shift ∈ {number,min,mean,median} and scale ∈ {number,minmax,std,iqr,maxabs} -/
+theorem fit_eq_spec (sd : List Rat → Rat) (cfg : Cfg) (w : List Val) (s f : Rat) (h : fit sd cfg w = some (s, f)) :
+    ShiftStat cfg.shift (nums w) s ∧ ScaleStat sd cfg.scale (nums w) s f := fit_sound h
+
+/-- … and parameters are produced whenever the window column holds no string and the statistics exist -/
+theorem fit_defined (sd : List Rat → Rat) (cfg : Cfg) (w : List Val)
+    (hstr : w.any Val.isStr = false) (hdef : StatsDefined cfg w) : ∃ s f, fit sd cfg w = some (s, f) :=
+  fit_isSome sd cfg w hstr hdef
+
+/-! ## Scale -/
+
+/-- dense contexts: every cell of a numeric feature (no string in its window, first-interaction value a
+number or `None`) whose statistics exist meets the cell specification — for all shift × scale combinations,
+all windows, missing values anywhere including the first interaction -/
+theorem scale_eq_spec (sd : List Rat → Rat) (cfg : Cfg) (rows : List (List Val)) (first : List Val)
+    (i k : Nat) (v : Val)
+    (hfirst : rows.head? = some first) (hv : denseCell rows i k = some v)
+    (hpot : potDense first k = true)
+    (hstr : (col k (window cfg.usingN rows)).any Val.isStr = false)
+    (hdef : StatsDefined cfg (col k (window cfg.usingN rows))) :
+    ∃ out, denseCell (scaleDense sd cfg rows) i k = some out ∧
+      ScaleCellSpec sd cfg (col k (window cfg.usingN rows)) v out :=
+  scale_dense_eq_spec' sd cfg rows first i k v hfirst hv hpot hstr hdef
+
+example : ∃ out, denseCell (scaleDense (fun _ => 1) ⟨.min, .minmax, none⟩ [[.nil], [.num 2], [.num 4]]) 2 0 = some out ∧
+    ScaleCellSpec (fun _ => 1) ⟨.min, .minmax, none⟩ [.nil, .num 2, .num 4] (.num 4) out :=
+  scale_eq_spec _ _ _ [.nil] 2 0 (.num 4) rfl rfl rfl rfl
+    ⟨by simp [nums, Val.num?, col, window], by simp [nums, Val.num?, col, window]⟩
+
+/-- dense contexts: strings, `None` and `nan` are never touched, wherever they are; the number of
+interactions and of features is unchanged; a feature whose first-interaction value is a string is left alone -/
+theorem scale_untouched (sd : List Rat → Rat) (cfg : Cfg) (rows : List (List Val)) :
+    (∀ i k v, denseCell rows i k = some v → v.isNum = false → denseCell (scaleDense sd cfg rows) i k = some v) ∧
+    (∀ first i k, rows.head? = some first → potDense first k = false →
+        denseCell (scaleDense sd cfg rows) i k = denseCell rows i k) ∧
+    (scaleDense sd cfg rows).length = rows.length ∧
+    (∀ i : Nat, ((scaleDense sd cfg rows)[i]?).map List.length = (rows[i]?).map List.length) :=
+  ⟨fun i k v hv hn => scale_dense_untouched' sd cfg rows i k v hv hn,
+   fun first i k hf hp => scale_dense_nonpotential' sd cfg rows first i k hf hp,
+   (scale_dense_shape' sd cfg rows).1, (scale_dense_shape' sd cfg rows).2⟩
+
+/-- scalar contexts -/
+theorem scale_scalar_eq_spec (sd : List Rat → Rat) (cfg : Cfg) (rows : List Val) (i : Nat) (v : Val)
+    (hv : rows[i]? = some v)
+    (hstr : (window cfg.usingN rows).any Val.isStr = false)
+    (hdef : StatsDefined cfg (window cfg.usingN rows)) :
+    ∃ out, (scaleScalar sd cfg rows)[i]? = some out ∧ ScaleCellSpec sd cfg (window cfg.usingN rows) v out :=
+  scale_scalar_eq_spec' sd cfg rows i v hv hstr hdef
+
+theorem scale_scalar_untouched (sd : List Rat → Rat) (cfg : Cfg) (rows : List Val) :
+    (∀ (i : Nat) (v : Val), rows[i]? = some v → v.isNum = false → (scaleScalar sd cfg rows)[i]? = some v) ∧
+    (scaleScalar sd cfg rows).length = rows.length :=
+  ⟨fun i v hv hn => scale_scalar_untouched' sd cfg rows i v hv hn, scale_scalar_length' sd cfg rows⟩
+
+/- theorem scale_sparse_eq_spec_full: the same without `hpot` (i.e. also for keys that first occur after the
+   window).  False for the code: see `scale_sparse_key_outside_window_counterexample` (finding C11-F9). -/
+/-- sparse contexts (shift 0), statistics over the window with an absent key counting as 0.
+Partial: the key must occur in the fitting window (and not hold a string in the first interaction) —
+this is `hpot` -/
+theorem scale_sparse_eq_spec_partial (sd : List Rat → Rat) (cfg : Cfg) (rows : List SCtx) (first : SCtx)
+    (i : Nat) (k : String) (v : Val)
+    (hfirst : rows.head? = some first) (h0 : cfg.shift = .num 0)
+    (hv : sparseCell rows i k = some v)
+    (hpot : potSparse first (window cfg.usingN rows) k = true)
+    (hstr : ((window cfg.usingN rows).map (getD0 k)).any Val.isStr = false)
+    (hdef : StatsDefined cfg ((window cfg.usingN rows).map (getD0 k))) :
+    ∃ outs out, scaleSparse sd cfg rows = .ok outs ∧ sparseCell outs i k = some out ∧
+      ScaleCellSpec sd cfg ((window cfg.usingN rows).map (getD0 k)) v out :=
+  scale_sparse_eq_spec' sd cfg rows first i k v hfirst h0 hv hpot hstr hdef
+
+example : ∃ outs out, scaleSparse (fun _ => 1) ⟨.num 0, .maxabs, some 2⟩ [[("a", .num 1)], [("b", .num 4)], [("b", .num 2)]] = .ok outs ∧
+    sparseCell outs 2 "b" = some out ∧
+    ScaleCellSpec (fun _ => 1) ⟨.num 0, .maxabs, some 2⟩ [.num 0, .num 4] (.num 2) out :=
+  scale_sparse_eq_spec_partial _ _ _ [("a", .num 1)] 2 "b" (.num 2) rfl rfl rfl (by decide) (by decide)
+    ⟨trivial, by simp [nums, Val.num?, getD0, window, List.lookup]⟩
+
+/-- finding C11-F9: `Scale(0, 2, using=1)` on `{a:1},{b:3}` leaves `b = 3` although the documented value
+(given numbers need no window) is 6 — so `hpot` above cannot be dropped -/
+theorem scale_sparse_key_outside_window_counterexample :
+    let cfg : Cfg := ⟨.num 0, .num 2, some 1⟩
+    let rows : List SCtx := [[("a", .num 1)], [("b", .num 3)]]
+    ∀ sd : List Rat → Rat,
+      (∃ outs, scaleSparse sd cfg rows = .ok outs ∧ sparseCell outs 1 "b" = some (.num 3)) ∧
+      (∀ out, ScaleCellSpec sd cfg ((window cfg.usingN rows).map (getD0 "b")) (.num 3) out → out = .num 6) :=
+  scale_key_outside_window_witness
+
+/-- sparse contexts: non-numbers are untouched, no key appears or disappears, and a non-zero shift is rejected -/
+theorem scale_sparse_untouched (sd : List Rat → Rat) (cfg : Cfg) (rows : List SCtx) (first : SCtx)
+    (hfirst : rows.head? = some first) :
+    (cfg.shift = .num 0 →
+      (∀ i k v, sparseCell rows i k = some v → v.isNum = false →
+        ∃ outs, scaleSparse sd cfg rows = .ok outs ∧ sparseCell outs i k = some v) ∧
+      (∃ outs, scaleSparse sd cfg rows = .ok outs ∧
+        outs.map (fun c => c.map Prod.fst) = rows.map (fun c => c.map Prod.fst))) ∧
+    (cfg.shift ≠ .num 0 → scaleSparse sd cfg rows = .error .cobaException) :=
+  ⟨fun h0 => ⟨fun i k v hv hn => scale_sparse_untouched' sd cfg rows first i k v hfirst h0 hv hn,
+              scale_sparse_keys' sd cfg rows first hfirst h0⟩,
+   fun h0 => scale_sparse_rejects' sd cfg rows (by intro h; simp [h] at hfirst) h0⟩
+
+/-- the three kinds of context agree: scalar contexts behave as dense contexts with one feature, and a
+sparse context behaves as its dense embedding (absent key = 0) on every key that occurs in the window -/
+theorem scale_containers_agree (sd : List Rat → Rat) (cfg : Cfg) :
+    (∀ rows : List Val, cfg.usingN ≠ some 0 →
+      scaleDense sd cfg (rows.map (fun v => [v])) = (scaleScalar sd cfg rows).map (fun v => [v])) ∧
+    (∀ (rows : List SCtx) (first : SCtx) (keys : List String) (i j : Nat) (k : String) (v : Val),
+      rows.head? = some first → cfg.shift = .num 0 → keys[j]? = some k → sparseCell rows i k = some v →
+      (window cfg.usingN rows).any (hasKey k) = true →
+      ∃ outs, scaleSparse sd cfg rows = .ok outs ∧
+        sparseCell outs i k = denseCell (scaleDense sd cfg (rows.map (embed keys))) i j) :=
+  ⟨fun rows hu => scale_scalar_dense_agree' sd cfg rows hu,
+   fun rows first keys i j k v hf h0 hk hv ho => scale_sparse_dense_agree' sd cfg rows first keys i j k v hf h0 hk hv ho⟩
+
+/-! ## the fitting window -/
+
+/-- `using = None` is the whole stream, `using ≥ N` is the same as `None`, and with `using = len(w)` on
+`w ++ rest` everything is determined by `w`: each interaction (inside or after the window) is transformed by
+the row function fitted on `w` alone -/
+theorem window_semantics (sd : List Rat → Rat) (sh : Shift) (sc : Scl) :
+    (∀ (rows : List (List Val)) (n : Nat), rows.length ≤ n →
+      scaleDense sd ⟨sh, sc, some n⟩ rows = scaleDense sd ⟨sh, sc, none⟩ rows) ∧
+    (∀ (first : List Val) (w rest : List (List Val)), w.head? = some first →
+      scaleDense sd ⟨sh, sc, some w.length⟩ (w ++ rest) = (w ++ rest).map (denseRow sd ⟨sh, sc, some w.length⟩ first w)) ∧
+    (∀ (rows : List Val) (n : Nat), rows.length ≤ n →
+      scaleScalar sd ⟨sh, sc, some n⟩ rows = scaleScalar sd ⟨sh, sc, none⟩ rows) ∧
+    (∀ (w rest : List Val),
+      scaleScalar sd ⟨sh, sc, some w.length⟩ (w ++ rest) = (w ++ rest).map (applyOpt (fit sd ⟨sh, sc, some w.length⟩ w))) ∧
+    (∀ (rows : List SCtx) (n : Nat), rows.length ≤ n →
+      scaleSparse sd ⟨sh, sc, some n⟩ rows = scaleSparse sd ⟨sh, sc, none⟩ rows) ∧
+    (∀ (first : SCtx) (w rest : List SCtx), w.head? = some first → sh = .num 0 →
+      scaleSparse sd ⟨sh, sc, some w.length⟩ (w ++ rest) = .ok ((w ++ rest).map (sparseRow sd ⟨sh, sc, some w.length⟩ first w))) :=
+  ⟨fun rows n h => scaleDense_using_ge' sd sh sc n rows h,
+   fun first w rest hw => scaleDense_window' sd _ first w rest hw rfl,
+   fun rows n h => scaleScalar_using_ge' sd sh sc n rows h,
+   fun w rest => scaleScalar_window' sd _ w rest rfl,
+   fun rows n h => scaleSparse_using_ge' sd sh sc n rows h,
+   fun first w rest hw h0 => scaleSparse_window' sd _ first w rest hw rfl h0⟩
+
+theorem impute_window_semantics (st : Stat) (ind : Bool) :
+    (∀ (rows : List (List Val)) (n : Nat), rows.length ≤ n → imputeDense st ind (some n) rows = imputeDense st ind none rows) ∧
+    (∀ (first : List Val) (w rest : List (List Val)), w.head? = some first →
+      imputeDense st ind (some w.length) (w ++ rest) = (w ++ rest).map (imputeDenseRow st ind first w)) ∧
+    (∀ (rows : List SCtx) (n : Nat), rows.length ≤ n → imputeSparse st ind (some n) rows = imputeSparse st ind none rows) ∧
+    (∀ (rows : List Val) (n : Nat), rows.length ≤ n → imputeScalar st ind (some n) rows = imputeScalar st ind none rows) :=
+  ⟨fun rows n h => imputeDense_using_ge' st ind n rows h,
+   fun first w rest hw => imputeDense_window' st ind first w rest hw,
+   fun rows n h => imputeSparse_using_ge' st ind n rows h,
+   fun rows n h => imputeScalar_using_ge' st ind n rows h⟩
+
+/-! ## Impute -/
+
+/-- `_get_imputation`: an imputation, when produced, is the mean / median / a mode of the non-missing window
+values, and it is produced for every imputable feature -/
+theorem imputation_spec (st : Stat) (w : List Val) :
+    (∀ m, getImp st w = some m → ImpStat st (present w) m) ∧ (Imputable st w → ∃ m, getImp st w = some m) :=
+  ⟨fun _ h => getImp_sound h, getImp_isSome⟩
+
+/-- dense contexts: every missing value (`None`) of an imputable feature — wherever it is, including the first
+interaction — is replaced by that feature's statistic over the window -/
+theorem impute_eq_spec (st : Stat) (ind : Bool) (u : Option Nat) (rows : List (List Val)) (first : List Val)
+    (i k : Nat) (hfirst : rows.head? = some first) (hu : u ≠ some 0) (hk : k < first.length)
+    (hv : denseCell rows i k = some .nil)
+    (himp : Imputable st (col k (window u rows))) :
+    ∃ m, denseCell (imputeDense st ind u rows) i k = some m ∧ ImpStat st (present (col k (window u rows))) m :=
+  impute_dense_eq_spec' st ind u rows first i k hfirst hu hk hv himp
+
+example : ∃ m, denseCell (imputeDense .mean true none [[.nil], [.num 2], [.num 4]]) 0 0 = some m ∧
+    ImpStat .mean (present [.nil, .num 2, .num 4]) m :=
+  impute_eq_spec .mean true none _ [.nil] 0 0 rfl (by simp) (by simp) rfl ⟨by decide, by decide⟩
+
+/-- no non-missing value is changed or moved (dense and sparse contexts; scalar: `impute_scalar_spec`) -/
+theorem impute_nonmissing_fixed (st : Stat) (ind : Bool) (u : Option Nat) :
+    (∀ (rows : List (List Val)) i k v, denseCell rows i k = some v → v ≠ .nil →
+      denseCell (imputeDense st ind u rows) i k = some v) ∧
+    (∀ (rows : List SCtx) i k v, sparseCell rows i k = some v → v ≠ .nil →
+      sparseCell (imputeSparse st ind u rows) i k = some v) :=
+  ⟨fun rows i k v hv hn => impute_dense_nonmissing_fixed' st ind u rows i k v hv hn,
+   fun rows i k v hv hn => impute_sparse_nonmissing_fixed' st ind u rows i k v hv hn⟩
+
+/-- the missingness indicators: each result row is the (imputed) features followed by exactly one 0/1 feature
+per imputable column that has a missing value in the window (none when `indicator=False`), in column order;
+the indicator is 1 iff the row's own value in that column was missing -/
+theorem impute_indicator (st : Stat) (ind : Bool) (u : Option Nat) (rows : List (List Val)) (first row : List Val)
+    (i : Nat) (hfirst : rows.head? = some first) (hrow : rows[i]? = some row) :
+    ∃ out, (imputeDense st ind u rows)[i]? = some out ∧
+      out.length = row.length + (denseBins st ind first (window u rows)).length ∧
+      (∀ j k, (denseBins st ind first (window u rows))[j]? = some k →
+        out[row.length + j]? = some (bit (row[k]? == some Val.nil))) ∧
+      (∀ k, k ∈ denseBins st ind first (window u rows) ↔
+        (ind = true ∧ k < first.length ∧ (denseImp st first (window u rows) k).isSome = true ∧
+          (col k (window u rows)).any Val.isNil = true)) :=
+  impute_dense_indicator' st ind u rows first row i hfirst hrow
+
+theorem impute_no_indicator (st : Stat) (u : Option Nat) (rows : List (List Val)) :
+    (imputeDense st false u rows).map List.length = rows.map List.length ∧
+    (imputeDense st false u rows).length = rows.length :=
+  ⟨impute_dense_no_indicator' st u rows, impute_dense_length' st false u rows⟩
+
+/-- scalar contexts: the result is the list of imputed scalars, or of `[value, indicator]` pairs when
+`indicator=True` and the window has a missing value; a missing value becomes the window statistic -/
+theorem impute_scalar_spec (st : Stat) (ind : Bool) (u : Option Nat) (rows : List Val) :
+    ((ind && (window u rows).any Val.isNil) = false →
+      imputeScalar st ind u rows = .scalars (rows.map (imputeCell (getImp st (window u rows))))) ∧
+    ((ind && (window u rows).any Val.isNil) = true →
+      imputeScalar st ind u rows = .pairs (rows.map (fun v => [imputeCell (getImp st (window u rows)) v, bit v.isNil]))) ∧
+    (∀ v, (v ≠ .nil → imputeCell (getImp st (window u rows)) v = v) ∧
+      (v = .nil → Imputable st (window u rows) →
+        ∃ m, imputeCell (getImp st (window u rows)) v = m ∧ ImpStat st (present (window u rows)) m)) :=
+  ⟨impute_scalar_spec' st ind u rows, impute_scalar_indicator' st ind u rows, fun v => imputeCell_spec st _ v⟩
+
+/- theorem impute_sparse_eq_spec_full: the same without `hkey`.  False for the code: see
+   `impute_sparse_key_outside_window_counterexample` (finding C11-F10). -/
+/-- sparse contexts, statistics over the window with an absent key counting as 0.  Partial: the key must occur
+in the window (`hkey`) -/
+theorem impute_sparse_eq_spec_partial (st : Stat) (ind : Bool) (u : Option Nat) (rows : List SCtx) (first : SCtx)
+    (i : Nat) (k : String) (hfirst : rows.head? = some first)
+    (hv : sparseCell rows i k = some .nil)
+    (hkey : impSparseKey st first (window u rows) k = true)
+    (himp : Imputable st (sparseCol k (window u rows))) :
+    ∃ m, sparseCell (imputeSparse st ind u rows) i k = some m ∧
+      ImpStat st (present (sparseCol k (window u rows))) m :=
+  impute_sparse_eq_spec' st ind u rows first i k hfirst hv hkey himp
+
+example : ∃ m, sparseCell (imputeSparse .median false none [[("a", .nil)], [("a", .num 2)], []]) 0 "a" = some m ∧
+    ImpStat .median (present (sparseCol "a" [[("a", .nil)], [("a", .num 2)], []])) m :=
+  impute_sparse_eq_spec_partial .median false none _ [("a", .nil)] 0 "a" rfl rfl (by decide) ⟨by decide, by decide⟩
+
+/-- finding C11-F10: `Impute('mean', using=1)` on `{a:1},{b:None}` keeps the `None` although the window
+statistic of `b` (absent = 0) is 0 — so `hkey` above cannot be dropped -/
+theorem impute_sparse_key_outside_window_counterexample :
+    let rows : List SCtx := [[("a", .num 1)], [("b", .nil)]]
+    sparseCell (imputeSparse .mean false (some 1) rows) 1 "b" = some .nil ∧
+    (∀ m, ImpStat .mean (present (sparseCol "b" (window (some 1) rows))) m → m = .num 0) :=
+  impute_key_outside_window_witness
+
+/-- sparse contexts: a result row is the (imputed) context followed by one `<key>_is_missing` 0/1 entry per
+imputable key that occurs with a missing value in the window; 1 iff this row's value under the key was missing -/
+theorem impute_sparse_indicator (st : Stat) (ind : Bool) (u : Option Nat) (rows : List SCtx) (first c : SCtx)
+    (i : Nat) (hfirst : rows.head? = some first) (hrow : rows[i]? = some c) :
+    (imputeSparse st ind u rows)[i]? = some
+      (c.map (fun kv => (kv.1, imputeCell (sparseImp st first (window u rows) kv.1) kv.2))
+        ++ (sparseBins st ind first (window u rows)).map
+            (fun k => (k ++ "_is_missing", bit (c.lookup k == some Val.nil)))) ∧
+    (∀ k, k ∈ sparseBins st ind first (window u rows) ↔
+      (ind = true ∧ (window u rows).any (hasKey k) = true ∧ (sparseImp st first (window u rows) k).isSome = true ∧
+        ((window u rows).filterMap (fun c => c.lookup k)).any Val.isNil = true)) :=
+  impute_sparse_indicator' st ind u rows first c i hfirst hrow
+
+/-- `Environments.impute(stats)`: the statistics of a list are applied one after the other, each to the
+result of the previous one -/
+theorem impute_list_sequential (st : Stat) (stats : List Stat) (ind : Bool) (u : Option Nat) (c : Ctxs) :
+    envImpute [] ind u c = c ∧
+    envImpute (st :: stats) ind u c = envImpute stats ind u (imputeCtxs st ind u c) :=
+  ⟨rfl, rfl⟩
+
 end Coba.C11
